@@ -778,6 +778,45 @@ example :
     Atomman.Generated.DvectSource.pbcSetter [1, 0] = none := by
   decide +kernel
 
+open Atomman.Generated in
+/-- LAST CLAUSE of the property, about the kernel AS THE SOURCE READS NOW (generated `dvectC`): for both points in the closed
+    cell of a cell with mutually orthogonal vectors (any orientation / handedness), what `dvect_c` computes is not longer
+    than the image through ANY integer shift along the periodic directions. -/
+theorem source_true_nearest_ortho (b : Box K) (hdet : M3.det b.vects ≠ 0)
+    (h01 : V3.dot b.vects.r0 b.vects.r1 = 0) (h02 : V3.dot b.vects.r0 b.vects.r2 = 0)
+    (h12 : V3.dot b.vects.r1 b.vects.r2 = 0) (px py pz : Bool) (p0 p1 : V3 K)
+    (h0 : InCell b p0) (h1 : InCell b p1) (n : Shift) (hn : n.respects px py pz) :
+    V3.normSq (DvectSource.dvectC p0 p1 b.vects px py pz) ≤ V3.normSq ((p1 - p0) + latticeVec b.vects n) ∧
+    DvectSource.dmag2C p0 p1 b.vects px py pz = V3.normSq (DvectSource.dvectC p0 p1 b.vects px py pz) := by
+  rw [Source.gen_dvectC_eq_model, Source.gen_dmag2C_eq_model]
+  exact ⟨ortho_true_nearest b hdet h01 h02 h12 px py pz p0 p1 h0 h1 n hn, dmag2_eq_normsq_dvect _ _ _ _ _ _⟩
+
+open Atomman.Generated in
+/-- … and for ANY cell with `det ≠ 0`: if some image (any integer shift along the periodic directions) is shorter than half
+    the smallest perpendicular width of the periodic axes, the generated `dvectC` returns exactly that image, and it is the
+    shortest over all integer shifts. -/
+theorem source_true_nearest_tilted (b : Box K) (hdet : M3.det b.vects ≠ 0) (px py pz : Bool) (p0 p1 : V3 K)
+    (h0 : InCell b p0) (h1 : InCell b p1) (w2 : K)
+    (hwx : px = true → w2 * V3.normSq b.recip.r0 ≤ 1)
+    (hwy : py = true → w2 * V3.normSq b.recip.r1 ≤ 1)
+    (hwz : pz = true → w2 * V3.normSq b.recip.r2 ≤ 1)
+    (n : Shift) (hn : n.respects px py pz)
+    (sn : 4 * V3.normSq ((p1 - p0) + latticeVec b.vects n) < w2) :
+    DvectSource.dvectC p0 p1 b.vects px py pz = (p1 - p0) + latticeVec b.vects n ∧
+    ∀ m : Shift, m.respects px py pz →
+      V3.normSq (DvectSource.dvectC p0 p1 b.vects px py pz) ≤ V3.normSq ((p1 - p0) + latticeVec b.vects m) := by
+  rw [Source.gen_dvectC_eq_model]
+  exact (tilted_true_nearest b hdet px py pz p0 p1 h0 h1 w2 hwx hwy hwz n hn sn).2
+
+/-- non-vacuity: the generated kernels on the tilted example cell (boundary-crossing pair) and on the tie example. -/
+example : Atomman.Generated.DvectSource.dvectC (⟨11/5, 1/2, 5⟩ : V3 ℚ) ⟨29/5, 1/2, 5⟩ ⟨⟨4, 0, 0⟩, ⟨1, 4, 0⟩, ⟨1, 1, 4⟩⟩ true true true
+      = ⟨-2/5, 0, 0⟩ ∧
+    Atomman.Generated.DvectSource.dmag2C (⟨11/5, 1/2, 5⟩ : V3 ℚ) ⟨29/5, 1/2, 5⟩ ⟨⟨4, 0, 0⟩, ⟨1, 4, 0⟩, ⟨1, 1, 4⟩⟩ true true true = 4/25 ∧
+    Atomman.Generated.DvectSource.dvectC (⟨0, 0, 0⟩ : V3 ℚ) ⟨1, 1, 1⟩ ⟨⟨2, 0, 0⟩, ⟨0, 2, 0⟩, ⟨0, 0, 2⟩⟩ true true true = ⟨1, 1, 1⟩ ∧
+    Atomman.Generated.DvectSource.dvectC (⟨11/5, 1/2, 5⟩ : V3 ℚ) ⟨29/5, 1/2, 5⟩ ⟨⟨4, 0, 0⟩, ⟨1, 4, 0⟩, ⟨1, 1, 4⟩⟩ false true true
+      = ⟨18/5, 0, 0⟩ := by
+  decide +kernel
+
 /-! ### index dispatch of `System.dvect/dmag` -/
 
 /-- a python int `0 ≤ i < natoms` selects atom `i`; `-natoms ≤ i < 0` selects atom `natoms + i`; anything else
